@@ -314,6 +314,10 @@ func bechEncode(hrp string, data []byte, spare int, corr bool) string {
 			}
 		}
 	}
+	if corr || spare > 0 && len(data) < 8 {
+		cases.Add(fmt.Sprintf("PureEnc %s %s %d%%nat %s", vh.CoqStr(hrp), vh.CoqBytes(data), spare, vh.CoqBytes(backing)),
+			map[string]interface{}{"op": "bech32.Encode backing array", "hrp": hrp, "data": vh.Hex(data), "spare": spare, "impl_backing_after": vh.Hex(backing)})
+	}
 	if corr {
 		cases.Add(fmt.Sprintf("BechEnc %s %s %s %s", vh.CoqStr(hrp), vh.CoqBytes(data), vh.CoqBool(err == nil), vh.CoqStr(s)),
 			map[string]interface{}{"op": "bech32.Encode", "hrp": hrp, "data": vh.Hex(data), "impl_ok": err == nil, "impl": s})
